@@ -226,7 +226,18 @@ func (c *FnCtx) sev(sc *specCtx, e *SExpr) *Term {
 			name := fmt.Sprintf("%s!d%d", sanitize(b.Name), c.qdepth)
 			bs = append(bs, Bound{name, srt})
 			env2[b.Name] = leaf(name, srt).withGo(t)
-			_ = guards
+			// An axiom about all values of a concrete pointer type T must not speak about values of other types: references
+			// are untyped integers here and the methods of T that implement an interface are the interface's functions
+			// (types.Func.Type is types.Object.Type), so without this guard "forall f *types.Func :: f.Type() is a
+			// signature" would claim it of every types.Object.
+			if c.inAxiom && e.Name == "forall" && srt == SInt {
+				if pt, ok := types.Unalias(t).Underlying().(*types.Pointer); ok {
+					if _, isNamed := types.Unalias(pt.Elem()).(*types.Named); isNamed {
+						v := leaf(name, srt)
+						guards = append(guards, mkOr(mkEq(v, intLit(0)), mkEq(mk("dyntype", "TypeTag", v), c.typeTag(t))))
+					}
+				}
+			}
 		}
 		sc2 := &specCtx{st: sc.st, env: env2, old: sc.old, site: sc.site}
 		c.qdepth++
@@ -246,6 +257,9 @@ func (c *FnCtx) sev(sc *specCtx, e *SExpr) *Term {
 			c.qdepth--
 		}
 		if e.Name == "forall" {
+			if len(guards) > 0 {
+				body = mkImplies(mkAnd(guards...), body)
+			}
 			return mkForall(bs, body, pats...)
 		}
 		return mkExists(bs, body, pats...)
